@@ -93,6 +93,9 @@ func BuildRouterProject(c *orch.Ctx, l *lab.Lab, bin string, p *synth.Project, o
 	if len(engines) == 0 {
 		engines = synth.Engines
 	}
+	if opts.TopLevelEnum {
+		ensureAliasEnumNameTwin(p)
+	}
 	if opts.EnumValid {
 		ensureEnumTaggedBody(p)
 		// the experimental generated validators are only registered with this option: let model fields of a
@@ -398,4 +401,56 @@ func ensureEnumTaggedBody(p *synth.Project) {
 	// two independently validated fields: a request may violate both at once
 	st.Fields = append(st.Fields, synth.Field{GoName: "Vmin", Type: synth.Prim("string"), JSONName: "vmin", Validate: "min=3"}, synth.Field{GoName: "Vsmall", Type: synth.Prim("int"), JSONName: "vsmall", Validate: "lte=10"})
 	p.SetFeature("body-model-with-awkward-string-enum")
+}
+
+// ensureAliasEnumNameTwin: an enum and a constant-less alias that share their type name (different packages),
+// both used as top-level query parameters. With validateTopLevelOnlyEnum the enum only accepts its constants
+// and the alias accepts anything - whichever of the two is analysed first.
+func ensureAliasEnumNameTwin(p *synth.Project) {
+	if p.HasFeature("alias-and-enum-share-a-name-across-packages") || len(p.Pkgs) < 2 {
+		return
+	}
+	var en *synth.Enum
+	for i := range p.Enums {
+		if p.Enums[i].Base == "string" && (p.Enums[i].Pkg == "models" || p.Enums[i].Pkg == "shared") {
+			en = &p.Enums[i]
+			break
+		}
+	}
+	if en == nil {
+		return
+	}
+	other := ""
+	for _, pk := range p.Pkgs {
+		if pk.Key != en.Pkg && (pk.Key == "models" || pk.Key == "shared") {
+			other = pk.Key
+		}
+	}
+	if other == "" || p.Alias(other, en.Name) != nil || p.Enum(other, en.Name) != nil || p.Struct(other, en.Name) != nil {
+		return
+	}
+	type site struct{ ci, mi int }
+	var eps []site
+	for ci := range p.Controllers {
+		for mi := range p.Controllers[ci].Methods {
+			m := &p.Controllers[ci].Methods[mi]
+			free := m.IsEndpoint()
+			for _, pr := range m.Params {
+				if pr.GoName == "lvl" {
+					free = false
+				}
+			}
+			if free {
+				eps = append(eps, site{ci, mi})
+			}
+		}
+	}
+	if len(eps) < 2 {
+		return
+	}
+	p.Aliases = append(p.Aliases, synth.Alias{Name: en.Name, Pkg: other, Base: "string"})
+	a, b := eps[0], eps[len(eps)-1]
+	p.Controllers[a.ci].Methods[a.mi].Params = append(p.Controllers[a.ci].Methods[a.mi].Params, synth.Param{GoName: "lvl", In: "query", Type: synth.Named(other, en.Name)})
+	p.Controllers[b.ci].Methods[b.mi].Params = append(p.Controllers[b.ci].Methods[b.mi].Params, synth.Param{GoName: "lvl", In: "query", Type: synth.Named(en.Pkg, en.Name)})
+	p.SetFeature("alias-and-enum-share-a-name-across-packages")
 }
